@@ -60,4 +60,34 @@ mod verif_indicators {
 			k += 1;
 		}
 	}
+
+	// ---- C11: dynamic dispatch (core/indicator/dd.rs) forwards to the static implementation: same results, same shape, same name ----
+	// MomentumIndex (two Momentum windows, subtraction only) through Box<dyn IndicatorInstanceDyn<Candle>> against the static instance, symbolic closes, 3 steps
+	#[kani::proof]
+	#[kani::unwind(6)]
+	fn vk_dyn_forwarding_momentum_index() {
+		use crate::core::{IndicatorConfigDyn, IndicatorInstanceDyn};
+		use crate::indicators::MomentumIndex;
+		let cfg = MomentumIndex { period1: 2, period2: 1, source: Source::Close };
+		let dcfg: &dyn IndicatorConfigDyn<Candle> = &cfg;
+		assert!(dcfg.validate() == IndicatorConfig::validate(&cfg));
+		assert!(dcfg.size() == IndicatorConfig::size(&cfg));
+		assert!(dcfg.size() == (2, 1));
+		let c0: i8 = kani::any();
+		let first = candle(c0 as ValueType, c0 as ValueType);
+		let mut stat = IndicatorConfig::init(cfg, &first).unwrap();
+		let mut dynamic = dcfg.init(&first).unwrap();
+		assert!(dynamic.size() == (2, 1));
+		let mut k = 0;
+		while k < 3 {
+			let c: i8 = kani::any();
+			let cd = candle(c as ValueType, c as ValueType);
+			let a = IndicatorInstance::next(&mut stat, &cd);
+			let b = dynamic.next(&cd);
+			assert!(a.values_length() == b.values_length() && a.signals_length() == b.signals_length());
+			assert!(a.value(0).to_bits() == b.value(0).to_bits() && a.value(1).to_bits() == b.value(1).to_bits());
+			assert!(a.signal(0) == b.signal(0));
+			k += 1;
+		}
+	}
 }
